@@ -1097,14 +1097,15 @@ func (t *Tree) Compile(file string, args []string, out io.Writer) (err error) {
 				_print("}")
 			}
 		case TypeRange:
-			if n.ParentDetect() && !n.ParentMultipleKey() {
-				_print("\nposition++")
-				break
-			}
 			element := n.Front()
 			lower := element
 			element = element.Next()
 			upper := element
+			/* an inverted range matches nothing, whatever the case key says */
+			if n.ParentDetect() && !n.ParentMultipleKey() && []rune(lower.String())[0] <= []rune(upper.String())[0] {
+				_print("\nposition++")
+				break
+			}
 			/*print("\n   if !matchRange('%v', '%v') {", escape(lower.String()), escape(upper.String()))*/
 			_print("\n   if c := buffer[position]; c < '%v' || c > '%v' {", escape(lower.String()), escape(upper.String()))
 			printJump(ko)
